@@ -90,7 +90,9 @@ func fileStartChild() {
 	}
 	fmt.Println("set-up")
 	last := ""
-	for i := 0; i < 600; i++ {
+	want2 := fileStartAddr(c.V6, 2).String()
+	sinceV2 := 0 // polls since the file on disk was seen to hold version 2
+	for i := 0; i < 8000 && sinceV2 < 600; i++ {
 		cur := "none"
 		if c.V6 {
 			s := newSrv6([]handler.Handler6{h6}, loIface())
@@ -112,10 +114,19 @@ func fileStartChild() {
 			fmt.Printf("serves %s\n", cur)
 			last = cur
 		}
-		if cur == fileStartAddr(c.V6, 2).String() {
+		if cur == want2 {
 			break
 		}
+		// the bound counts from the moment the new version is on disk (the writer may be late on a busy machine)
+		if sinceV2 > 0 {
+			sinceV2++
+		} else if b, err := os.ReadFile(c.File); err == nil && strings.HasPrefix(string(b), "# version 2\n") {
+			sinceV2 = 1
+		}
 		time.Sleep(5 * time.Millisecond)
+	}
+	if sinceV2 >= 600 {
+		fmt.Println("gave-up")
 	}
 	fmt.Println("end")
 }
@@ -149,9 +160,9 @@ func (fileStartEngine) Run(ctx *fw.Ctx, cs any) {
 		ctx.Inconclusive("filestart: cannot start child: %v", err)
 		return
 	}
-	timer := time.AfterFunc(60*time.Second, func() { syscall.Kill(cmd.Process.Pid, syscall.SIGKILL) }) // watchdog only
+	timer := time.AfterFunc(90*time.Second, func() { syscall.Kill(cmd.Process.Pid, syscall.SIGKILL) }) // watchdog only
 	var served []string
-	ended, setupErr, wroteBeforeSetUp := false, "", false
+	ended, setupErr, wroteBeforeSetUp, gaveUp := false, "", false, false
 	wrote := make(chan struct{})
 	sc := bufio.NewScanner(stdout)
 	for sc.Scan() {
@@ -183,6 +194,8 @@ func (fileStartEngine) Run(ctx *fw.Ctx, cs any) {
 			setupErr = sc.Text()
 		case "serves":
 			served = append(served, f[1])
+		case "gave-up":
+			gaveUp = true
 		case "end":
 			ended = true
 		}
@@ -208,7 +221,11 @@ func (fileStartEngine) Run(ctx *fw.Ctx, cs any) {
 	ctx.Nontrivial("C10", fmt.Sprintf("filestart/%v/%s/%d/%v/%v", c.V6, c.Slow, c.WriteMs, c.Rename, wroteBeforeSetUp))
 	want := fileStartAddr(c.V6, 2).String()
 	if len(served) == 0 || served[len(served)-1] != want {
-		ctx.Viol("C10", "rewrite-during-start-up-never-loaded", "%s: the file holds version 2 (%s for this client) and is not touched again; polled 600 times over 3 s the client is served %v", desc, want, served)
+		if !gaveUp {
+			ctx.Inconclusive("filestart: the child stopped before it had seen version 2 on disk for 600 polls (%v)", served)
+			return
+		}
+		ctx.Viol("C10", "rewrite-during-start-up-never-loaded", "%s: the file holds version 2 (%s for this client) and is not touched again; polled 600 times over 3 s after version 2 was on disk the client is served %v", desc, want, served)
 		return
 	}
 	ctx.Count("filestart.version_2_served", 1)
